@@ -1,8 +1,8 @@
 package props
 
 import (
-	cmtcrypto "github.com/cometbft/cometbft/proto/tendermint/crypto"
 	"fmt"
+	cmtcrypto "github.com/cometbft/cometbft/proto/tendermint/crypto"
 	"math/big"
 	"sort"
 
